@@ -15,7 +15,10 @@ ASSUMPTIONS = ['O-diff is a transcription of node-semver 7.5.4 functions/diff.js
 
 def groups(tier):
     L = 1 if tier == 'quick' else 3
-    return [{'name': 'diff-L%d' % L, 'fn': diff_group, 'args': {'L': L}}] + [validation_group(('diff',), tier)]
+    gs = [{'name': 'diff-L%d' % L, 'fn': diff_group, 'args': {'L': L}}]
+    if tier != 'quick':
+        gs.append({'name': 'kani-k2', 'fn': kani_group, 'args': {}, 'timeout_s': 1200})
+    return gs + [validation_group(('diff',), tier)]
 
 
 def judge_diff(case):
@@ -64,3 +67,16 @@ def diff_group(s, L):
     ab2 = h.call(f, a2, b2)
     s.prove(h, 'build metadata never influences diff', same, AND(ab.tag == ab2.tag, z3.Implies(is_variant(ab, 'Some'), code_of(ab) == code_of(ab2))),
             decode=lambda m: {'a': h.dec_version(m, a), 'b': h.dec_version(m, b), 'a2': h.dec_version(m, a2), 'b2': h.dec_version(m, b2)}, replay=judge_diff)
+
+
+def kani_group(s):
+    from .. import kani
+    h = s.harness(L=1)
+    a, b = h.version('a'), h.version('b')
+    f = h.fn('Version', None, 'diff')
+    ab, ba = h.call(f, a, b), h.call(f, b, a)
+    c = h.cmp(a, b)
+    code_of = lambda o: payload(o, 'Some')[0].tag
+    goal = AND(ab.tag == ba.tag, z3.Implies(is_variant(ab, 'Some'), code_of(ab) == code_of(ba)), is_variant(ab, 'None') == (c.tag == 1))
+    status, _, _ = h.check(h.wf, goal)
+    kani.cross_check(s, 'k2_diff_sym', status == 'unsat', 'Version::diff symmetric and None exactly at Equal')
